@@ -167,7 +167,11 @@ impl StorageData for FileStorage {
         let end = pos + bytes.len() as u64;
         let mut buffer = vec![0_u8; (std::cmp::min(current_len, end) - pos) as usize];
         Self::read_impl(&self.file, pos, &mut buffer)?;
-        self.wal.insert(pos, &buffer)?;
+
+        if !bytes.is_empty() {
+            self.wal.insert(pos, &buffer)?;
+        }
+
         self.file.seek(SeekFrom::Start(pos))?;
         self.file.write_all(bytes)?;
         self.len = std::cmp::max(current_len, end);
